@@ -25,6 +25,7 @@ cfg('c06hd1_q', HD=1, Umis='{0, 1, 6, 4}', Sites='{0, 1}', MaxFrags=5)
 cfg('c06hd2_q', HD=2, Umis='{0, 6, 4, 25}', Sites='{0}', MaxFrags=5)
 cfg('c06hd0_q', HD=0, Cells='{1, 2}', Strands='{0, 1}', Sites='{0, 1}', Umis='{0, 1}', Valids='{TRUE, FALSE}', MaxFrags=3)
 cfg('c06cap_q', Cap=2, Umis='{0, 1}', Sites='{0, 1}', MaxFrags=5, Scheds='{1000, 0}')
+cfg('c06cap1_q', Cap=1, Umis='{0, 1}', Sites='{0, 1}', MaxFrags=4, Scheds='{1000, 0}')      # cap 1: every copy is turned away
 cfg('c06cap_dup', Cap=2, Umis='{0, 1}', Sites='{0, 1}', MaxFrags=4, Variant='"impl_dup"')
 cfg('c06chicr_q', Kind='"chic"', Radius=1, Strands='{0, 1}', Sites='{0,1,2,3}', MaxFrags=4)
 PLAIN = dict(Kind='"plain"', Contigs='{1, 2}', Sites='{0,1,2}', Lens='{1, 2}', MaxFrags=3, Scheds='{1000, 0}', CacheSize=4)
